@@ -57,7 +57,7 @@ def tensor(data, requires_grad=False, dtype=None, device=None) -> 'Tensor':
     """
     Creates a Tensor from a numpy array
     """
-    data = np.array(data, dtype=default_type__)
+    data = np.array(data, dtype=dtype if dtype is not None else default_type__)
     return Tensor(data, requires_grad=requires_grad, dtype=dtype, device=device)
 
 def empty(*shape, dtype=None, requires_grad=False, name=None, device=None):
@@ -175,7 +175,7 @@ class Tensor:
             data = np.asarray(data)
         if not isinstance(data, np.ndarray):
             try:
-                data = np.array(data, dtype=default_type__)
+                data = np.array(data, dtype=dtype if dtype is not None else default_type__)
             except: 
                 raise RuntimeError("data must be convertible into a numpy array")
         if dtype is not None and data.dtype != dtype: data = data.astype(dtype)
